@@ -705,7 +705,7 @@ func cmdRun(args []string) int {
 			f := &findings[fi]
 			if f.matches(id, v) {
 				matched = true
-				key := f.Rule + "|" + f.Scenario + "|" + f.DetailContains
+				key := f.What // one line per finding, however many rule/scenario entries describe it
 				if !knownPrinted[key] {
 					knownPrinted[key] = true
 					fmt.Printf("KNOWN-FINDING: property=%s %s\n", id, f.What)
@@ -719,6 +719,9 @@ func cmdRun(args []string) int {
 		unlisted++
 		perRule[v.Rule]++
 		if perRule[v.Rule] > 5 {
+			if os.Getenv("VCHECK_ALL") != "" { // diagnosis: name every violating scenario (still no further replay files)
+				fmt.Printf("  (capped) rule=%s scenario=%s deviations=%d\n  %s\n", v.Rule, v.Scenario, v.Cost, oneLine(v.Detail, 400))
+			}
 			continue // cap the number of replay files per rule; counted below
 		}
 		var part Part
